@@ -71,6 +71,23 @@ def m_any_token(ip, callee, args):
     ip.solver.add('(str.in_re %s (re.* (re.union (re.range "!" ":") (re.range "<" "{") (re.range "}" "~"))))' % t.s)
     for f in ('printable', 'no: ', 'no:;', 'no:|'): add_fact(ip, t, f)
     return t
+def m_any_ascii(ip, callee, args):
+    t = m_any_token(ip, callee, args)
+    ip.solver.add('(= (str.len %s) %d)' % (t.s, args[1])); add_fact(ip, t, 'len:%d' % args[1])
+    return t
+def known_len(ip, q):
+    """exact length of a string value if it is syntactically known"""
+    if isinstance(q, str): return len(q.encode())
+    if isinstance(q, SCat):
+        n = 0
+        for p in q.parts:
+            k = known_len(ip, p)
+            if k is None: return None
+            n += k
+        return n
+    for f in ip.sfacts.get(q.s, ()):
+        if f.startswith('len:'): return int(f[4:])
+    return None
 def m_choice(ip, callee, args):
     n = args[1]
     t = ip.fresh('Int', val_of_strlike(args[0]), 'choice'); ip.solver.add('(and (>= %s 0) (< %s %d))' % (t.s, t.s, n))
@@ -167,6 +184,8 @@ def m_str_ne(ip, callee, args): return ip.bnot(m_str_eq(ip, callee, args))
 def m_len(ip, callee, args):
     s = val_of_strlike(args[0])
     if not is_sym(s): return len(s.encode())
+    k = known_len(ip, s)
+    if k is not None: return k
     if isinstance(s, SCat):
         n = sum(len(q.encode()) for q in s.parts if isinstance(q, str))
         ts = [q for q in s.parts if not isinstance(q, str)]
@@ -385,7 +404,7 @@ def install(ip):
     M = ip.models
     for ty in ('i32', 'i64', 'u8', 'u64', 'u128', 'usize'):
         M['vsym::any_' + ty] = m_any_int(ty)
-    M['vsym::any_bool'] = m_any_bool; M['vsym::any_str'] = m_any_str; M['vsym::any_token'] = m_any_token; M['vsym::choice'] = m_choice; M['vsym::param'] = m_param
+    M['vsym::any_bool'] = m_any_bool; M['vsym::any_str'] = m_any_str; M['vsym::any_token'] = m_any_token; M['vsym::any_ascii'] = m_any_ascii; M['vsym::choice'] = m_choice; M['vsym::param'] = m_param
     M['vsym::assume'] = m_assume; M['vsym::check'] = m_check; M['vsym::cover'] = m_cover; M['vsym::tag'] = m_tag; M['vsym::tag_i'] = m_tag_i
     M['vsym::expect_panic'] = m_expect_panic; M['vsym::spawn'] = m_spawn; M['vsym::join'] = m_join; M['vsym::yield_now'] = m_yield; M['vsym::current_tid'] = m_current_tid; M['vsym::block_on_lock'] = m_block_on_lock
     for k in [k for k in M if k.startswith('vsym::')]: M[k[6:]] = M[k]
@@ -1102,7 +1121,8 @@ def m_as_bytes(ip, c, a):
     for q in parts_of(s):
         if isinstance(q, str): out.extend(Cell(b) for b in q.encode())
         else:
-            n = ip.strlen_concrete(q)
+            n = known_len(ip, q)
+            if n is None: n = ip.strlen_concrete(q)
             out.extend(Cell(CharOf(q, i, n)) for i in range(n))
     return Ref(Cell(out))
 def m_into_bytes(ip, c, a): return Agg('Vec', None, [Cell(m_as_bytes(ip, c, a).cell.v)])
@@ -1128,7 +1148,7 @@ def install12(ip):
         P(r'impl \[.*\]>::first$', m_slice_first), P(r'impl \[.*\]>::get$', m_slice_get),
         P(r'^std::vec::from_elem$|^from_elem$', m_vec_from_elem), P(r'impl \[.*\]>::to_vec$', m_slice_to_vec), P(r'impl \[.*\]>::into_vec$|^<Vec<.*> as From<\[.*\]>>::from$', m_vec_from_array),
         P(r'^Box::new$|^Box::<.*>::new$', m_box_new), P(r'^Box::new_uninit$', m_box_new_uninit), P(r'box_assume_init_into_vec_unsafe$', m_box_assume_init_into_vec), P(r'impl str>::chars$', m_chars), P(r'impl str>::is_empty$|^String::is_empty$', m_str_is_empty),
-        P(r'^String::from_utf8$', m_string_from_utf8), P(r'impl str>::as_bytes$|^String::as_bytes$', m_as_bytes), P(r'^String::into_bytes$', m_into_bytes),
+        P(r'^String::from_utf8$|^(core::str::|std::str::)?from_utf8$|converts::from_utf8$', m_string_from_utf8), P(r'impl str>::as_bytes$|^String::as_bytes$', m_as_bytes), P(r'^String::into_bytes$', m_into_bytes),
     ] + ip.pattern_models
 
 def install13(ip):
